@@ -4,6 +4,7 @@ import (
 	"bufio"
 	"encoding/json"
 	"fmt"
+	"math"
 	"os"
 	"regexp"
 	"strings"
@@ -68,6 +69,7 @@ type WLSpec struct {
 	Sep       string    `json:"sep"`
 	SepChar   []int     `json:"sepChar"`
 	SepRecipe *CharSpec `json:"sepRecipe,omitempty"`
+	SepVals   [][]int   `json:"sepVals"` // customlist: the values of a caller-written separator function
 }
 
 func (w *WLSpec) norm() {
@@ -76,6 +78,9 @@ func (w *WLSpec) norm() {
 	}
 	if w.SepChar == nil {
 		w.SepChar = []int{}
+	}
+	if w.SepVals == nil {
+		w.SepVals = [][]int{}
 	}
 	if w.SepRecipe != nil {
 		w.SepRecipe.norm()
@@ -122,6 +127,18 @@ func (w WLSpec) Build(wl *spg.WordList) (spg.WLRecipe, *spg.WordList, error) {
 	case "", "char":
 	case "recipe":
 		r.SeparatorFunc = spg.NewSFFunction(w.SepRecipe.Recipe())
+	case "customlist":
+		// a caller-written separator function: one of the listed strings (possibly the empty one), uniformly, reporting log2(#values) bits
+		vals := FromCPsList(w.SepVals)
+		pick := spg.CharRecipe{Length: 1, AllowChars: "abcdefghijklmnop"[:len(vals)]}
+		bits := spg.FloatE(math.Log2(float64(len(vals))))
+		r.SeparatorFunc = func() (string, spg.FloatE) {
+			p, err := pick.Generate()
+			if err != nil {
+				return "", 0
+			}
+			return vals[int(p.String()[0]-'a')], bits
+		}
 	case "custom0":
 		// a caller-written separator function: a fresh random string from SepRecipe each call, but it claims no entropy
 		cr := w.SepRecipe.Recipe()
